@@ -39,6 +39,9 @@ Record exec_obs := {
   eo_fd1 : bytes; eo_fd1_append : bool;
   eo_fd2 : bytes; eo_fd2_append : bool;
   eo_log_kept : bool;                     (* the line planted in <name>.log before the run is still its first line *)
+  eo_streams_ok : bool;                   (* a spotlight run by a real play: its descriptors are the play's pipe, and a
+                                             line of its stdout and a line of its stderr both reached the signal filters
+                                             (true for everything else) *)
 }.
 
 Record cast_case := {
@@ -85,7 +88,7 @@ Definition cast_model_bad (c : cast_case) : bool :=
 
 (** * Execution *)
 Definition volatile (n : bytes) : bool :=
-  bytes_eqb n (bs "_") || bytes_eqb n (bs "SHLVL") || bytes_eqb n (bs "PROBE_OUT").
+  bytes_eqb n (bs "_") || bytes_eqb n (bs "SHLVL") || bytes_eqb n (bs "PROBE_OUT") || bytes_eqb n (bs "PROBE_DIR").
 
 Definition env_sub (a b : list (bytes * bytes)) : bool :=
   forallb (fun nv => volatile (fst nv) ||
@@ -175,7 +178,7 @@ Definition exec_oracle_bad1 (c : cast_case) (e : exec_obs) : bool :=
   let wd := cc_rundir c ++ bs "/artifacts/" ++ eo_actor e in
   let log := wd ++ bs "/" ++ eo_script e ++ bs ".log" in
   negb (
-    eo_ran e
+    eo_ran e && eo_streams_ok e
     (* the actor's own working directory is the current directory *)
     && bytes_eqb (eo_cwd e) wd
     (* TMPDIR and HOME point inside the run directory (unless the with clause sets them itself) *)
